@@ -482,6 +482,8 @@ class Env:
                 self.conn_sub_sends.append((sid, kind, policy))
             elif k == "failfirst":
                 net.fail_first_write = bool(op[1])
+            elif k == "blockfirst":
+                net.block_first = bool(op[1])
             elif k == "heal":
                 await self._heal()
             else:
@@ -493,6 +495,7 @@ class Env:
         net.mode = "accept"
         net.latency = 0.0
         net.fail_first_write = False
+        net.block_first = False
         self.conn_sub_sends = []
         self.raise_conn_sub = False
         self.raise_msg_sub = False
